@@ -1,5 +1,9 @@
 import importlib, json, os, sys, traceback
 sys.path.insert(0, os.path.dirname(os.path.abspath(__file__)))
+# FLOWCAL_REPO lets the whole machinery run against another checkout (used by tools/mutant_matrix.py);
+# by default FlowCal is the editable install of /repo.
+if os.environ.get('FLOWCAL_REPO'):
+    sys.path.insert(0, os.environ['FLOWCAL_REPO'])
 import common
 
 def main():
